@@ -349,6 +349,7 @@ def run(ctx: Ctx) -> None:
 
 # ---------------------------------------------------------------------------
 WITNESSES = [
+    {"name": "seeded-C12-6", "file": "algos/doe/base_doe_library.py", "old": "                )\n            for index, input_value in enumerate(self.samples):\n                try:\n", "new": "                )\n            database = problem.database\n            for index, input_value in enumerate(self.samples):\n                if use_database and database.get(input_value):\n                    # Already evaluated, e.g. loaded from a backup file.\n                    continue\n\n                try:\n", "expect": "12.6", "note": "Sequential DOE skips the samples that already have an entry in the database"},
     {"name": "reader-skips-entries-without-scalars", "file": HD, "old": "                else:\n                    scalar_dict = {}\n                scalar_dict.update(names_to_arrays)", "new": "                else:\n                    continue\n                scalar_dict.update(names_to_arrays)", "expect": "12.5"},
     {"name": "backup-rewrites-file", "file": BS, "old": "self.save_optimization_history(self._opt_hist_backup_path, append=True)", "new": "self.save_optimization_history(self._opt_hist_backup_path, append=False)", "expect": "12.1"},
     {"name": "append-flag-dropped", "file": BS, "old": "optimization_problem.to_hdf(file_path=file_path, append=append)", "new": "optimization_problem.to_hdf(file_path=file_path)", "expect": "12.1"},
